@@ -245,6 +245,12 @@ func (f *FBaseProcessorFunction) SendReply(fctx FContext, oprot *FProtocol, meth
 
 func (f *FBaseProcessorFunction) trapError(ctx context.Context, fctx FContext, oprot *FProtocol, method string, err error) error {
 	if IsErrTooLarge(err) {
+		// The failed write can leave a stateful protocol (JSON: buffered writer
+		// in a sticky error state, open write contexts) unable to emit a
+		// well-formed message; start the error reply from a clean state.
+		if r, ok := oprot.TProtocol.(interface{ Reset() }); ok {
+			r.Reset()
+		}
 		f.sendError(ctx, fctx, oprot, APPLICATION_EXCEPTION_RESPONSE_TOO_LARGE, method, err.Error())
 		return nil
 	}
